@@ -38,8 +38,8 @@ pub fn part(check: impl Check + 'static, quick: u64, thorough: u64) -> Part {
 pub fn parts_for(id: &str) -> Option<Vec<Part>> {
     Some(match id {
         "C04" => vec![part(c04_udp::UdpDemux, 20_000, 600_000)],
-        "C05" => vec![part(c05_link::LinkLayer, 4_000, 300_000)],
-        "C06" => vec![part(c06_arp::ArpResolution, 6_000, 300_000)],
+        "C05" => vec![part(c05_link::LinkLayer, 20_000, 600_000)],
+        "C06" => vec![part(c06_arp::ArpResolution, 40_000, 1_000_000)],
         "C07" => vec![part(c07_message::MessageOps, 400_000, 8_000_000)],
         "C09" => vec![
             part(c09_iptable::TableHistories, 400_000, 6_000_000),
